@@ -32,7 +32,7 @@ Lemma ht_commit_call pre v T cz c :
   HG pre v -> HT T pre c ->
   HT T (pre ++ [ECommitCall T cz]) (setn (setn (setn c FCalled 1) FCausal (if cz then 1 else 0)) FWm (v_tso v)).
 Proof.
-  intros G [C1 C2 C3 C4 C5 C6 C7 C8 C9 C10 C11 C12 C13 C14 C15 C16 C17 C18 C19 C20 C21 C22 C23 C24 C25 C26].
+  intros G [C1 C2 C3 C4 C5 C6 C7 C8 C9 C10 C11 C12 C13 C14 C15 C16 C17 C18 C19 C20 C21 C22 C23 C24 C25 C26 C27 C28].
   constructor; try solve [hsolve].
   csimp. intros pre1 pre2 cz0 Hd Hno. apply snoc_split in Hd.
   destruct Hd as [(-> & Hd & ->) | (q & -> & ->)].
@@ -49,7 +49,7 @@ Lemma ht_mutations pre v T p ms c :
   HG pre v -> HT T pre c -> cn c FHasm = 0 -> cn c FPwSent = 0 -> cn c FPcSent = 0 -> In p (lock_keys ms) ->
   HT T (pre ++ [EMutations T p ms]) (set_muts (setn (setn c FHasm 1) FPrim p) (lock_keys ms) (map fst ms)).
 Proof.
-  intros G [C1 C2 C3 C4 C5 C6 C7 C8 C9 C10 C11 C12 C13 C14 C15 C16 C17 C18 C19 C20 C21 C22 C23 C24 C25 C26] Hh Hpw Hpc Hlk.
+  intros G [C1 C2 C3 C4 C5 C6 C7 C8 C9 C10 C11 C12 C13 C14 C15 C16 C17 C18 C19 C20 C21 C22 C23 C24 C25 C26 C27 C28] Hh Hpw Hpc Hlk.
   assert (NS : forall r C ks, ~ In (ECmSend r T C ks) pre).
   { intros r C ks Hi. rewrite Hh, Hpc in C8. cbn [N.eqb] in C8.
     assert (Hz : count_if (is_cm_send T) pre = 0%nat) by lia.
@@ -83,7 +83,7 @@ Qed.
 Lemma ht_pw_send pre T r p ks a o m f secs c :
   HT T pre c -> HT T (pre ++ [EPwSend r T p ks a o m f secs]) (pw_send_rec c ks a o).
 Proof.
-  intros [C1 C2 C3 C4 C5 C6 C7 C8 C9 C10 C11 C12 C13 C14 C15 C16 C17 C18 C19 C20 C21 C22 C23 C24 C25 C26].
+  intros [C1 C2 C3 C4 C5 C6 C7 C8 C9 C10 C11 C12 C13 C14 C15 C16 C17 C18 C19 C20 C21 C22 C23 C24 C25 C26 C27 C28].
   unfold pw_send_rec. cbv zeta.
   destruct a, o; (constructor; try solve [hsolve]; try solve [call_other C18]).
   all: try solve [csimp; intros _; do 7 eexists; apply in_snoc; right; reflexivity].
@@ -104,7 +104,7 @@ Ltac pwr_close C3 r ks m :=
 Lemma ht_pw_reply pre T r ks x c :
   HT T pre c -> HT T (pre ++ [EPwReply r T ks x]) (pw_reply_rec c ks x).
 Proof.
-  intros [C1 C2 C3 C4 C5 C6 C7 C8 C9 C10 C11 C12 C13 C14 C15 C16 C17 C18 C19 C20 C21 C22 C23 C24 C25 C26].
+  intros [C1 C2 C3 C4 C5 C6 C7 C8 C9 C10 C11 C12 C13 C14 C15 C16 C17 C18 C19 C20 C21 C22 C23 C24 C25 C26 C27 C28].
   unfold pw_reply_rec. cbv zeta.
   destruct x as [m o | kd |].
   - assert (Hmc : N.max (cn c FMinc) m <> 0 ->
@@ -134,6 +134,9 @@ Proof.
     all: try solve [kcl C21].
     all: try solve [kcl C22].
     all: try solve [csimp; intros r0 ks0 m0 o0 H Hx; destruct (Hb r0 ks0 m0 o0 H Hx) as [Hq | [Hq1 Hq2]]; [lia | first [discriminate Hq1 | subst; lia]]].
+    all: try solve [csimp; intros r0 p0 ks0 o0 m0 f0 secs0 H; snoc_in H; first [discriminate | eapply C27; eauto]].
+    all: try solve [csimp; intros r0 ks0 o0 H; snoc_in H;
+                    [first [discriminate | eapply C28; eauto] | inversion H; subst; first [discriminate | cbn in Em; discriminate Em]]].
     all: pwr_close C3 r ks m.
   - constructor; try solve [hsolve]; try solve [call_other C18].
     all: try solve [kcl C21].
@@ -150,7 +153,7 @@ Lemma ht_cm_send pre T r C ks c :
   HT T (pre ++ [ECmSend r T C ks])
      (if (cn c FHasm =? 0) || mem (cn c FPrim) ks then incn c FPcSent else c).
 Proof.
-  intros [C1 C2 C3 C4 C5 C6 C7 C8 C9 C10 C11 C12 C13 C14 C15 C16 C17 C18 C19 C20 C21 C22 C23 C24 C25 C26] Hts.
+  intros [C1 C2 C3 C4 C5 C6 C7 C8 C9 C10 C11 C12 C13 C14 C15 C16 C17 C18 C19 C20 C21 C22 C23 C24 C25 C26 C27 C28] Hts.
   assert (Hcm : cn c FHasm <> 0 -> forall r0 C0 ks0, In (ECmSend r0 T C0 ks0) (pre ++ [ECmSend r T C ks]) -> T < C0).
   { intros Hh r0 C0 ks0 H. snoc_in H; [eauto | inversion H; subst; auto]. }
   destruct (cn c FHasm =? 0) eqn:Eh; [| destruct (mem (cn c FPrim) ks) eqn:Em]; cbn [orb];
@@ -164,7 +167,7 @@ Lemma ht_cm_reply_prim pre T r C ks x c :
   HT T pre c -> cn c FHasm <> 0 -> mem (cn c FPrim) ks = true -> (x = CmOk -> C <> 0) ->
   HT T (pre ++ [ECmReply r T C ks x]) (cm_reply_rec c C x).
 Proof.
-  intros [C1 C2 C3 C4 C5 C6 C7 C8 C9 C10 C11 C12 C13 C14 C15 C16 C17 C18 C19 C20 C21 C22 C23 C24 C25 C26] Hh Hm HC.
+  intros [C1 C2 C3 C4 C5 C6 C7 C8 C9 C10 C11 C12 C13 C14 C15 C16 C17 C18 C19 C20 C21 C22 C23 C24 C25 C26 C27 C28] Hh Hm HC.
   pose proof (proj1 (mem_In _ _) Hm) as Hin.
   destruct x; cbn [cm_reply_rec];
     (constructor; try solve [hsolve]; try solve [call_other C18]).
@@ -179,7 +182,7 @@ Qed.
 Lemma ht_cm_reply_other pre T r C ks x c :
   HT T pre c -> has_prim c ks = false -> HT T (pre ++ [ECmReply r T C ks x]) c.
 Proof.
-  intros [C1 C2 C3 C4 C5 C6 C7 C8 C9 C10 C11 C12 C13 C14 C15 C16 C17 C18 C19 C20 C21 C22 C23 C24 C25 C26] Hp.
+  intros [C1 C2 C3 C4 C5 C6 C7 C8 C9 C10 C11 C12 C13 C14 C15 C16 C17 C18 C19 C20 C21 C22 C23 C24 C25 C26 C27 C28] Hp.
   assert (Hm : cn c FHasm <> 0 -> mem (cn c FPrim) ks = false).
   { intros Hh. unfold has_prim in Hp. apply fb_true in Hh. rewrite Hh in Hp. exact Hp. }
   constructor; try solve [hsolve]; try solve [call_other C18].
@@ -194,7 +197,7 @@ Qed.
 Lemma ht_rb_send pre T r ks c :
   HT T pre c -> HT T (pre ++ [ERbSend r T ks]) (setn c FDead 1).
 Proof.
-  intros [C1 C2 C3 C4 C5 C6 C7 C8 C9 C10 C11 C12 C13 C14 C15 C16 C17 C18 C19 C20 C21 C22 C23 C24 C25 C26].
+  intros [C1 C2 C3 C4 C5 C6 C7 C8 C9 C10 C11 C12 C13 C14 C15 C16 C17 C18 C19 C20 C21 C22 C23 C24 C25 C26 C27 C28].
   constructor; try solve [hsolve]; try solve [call_other C18].
   csimp. intros. discriminate.
 Qed.
